@@ -1,6 +1,7 @@
 package props
 
 import (
+	"bytes"
 	"errors"
 	"fmt"
 	"sort"
@@ -211,9 +212,21 @@ func writeVersion(w *kit.World, c c18Case, v int, create bool) error {
 // readVersion checks, inside one read transaction, that entities, unique index, set index, links (both sides) and the
 // drawn queries all show one and the same version; it returns that version.
 func readVersion(w *kit.World, c c18Case) (int, error) {
+	v, _, err := readVersionKeep(w, c)
+	return v, err
+}
+
+// readVersionKeep also hands back the id list of an unsorted query exactly as the store returned it: callers keep
+// query results after the read transaction has ended, so the strings must stay what they were.
+func readVersionKeep(w *kit.World, c c18Case) (int, []string, error) {
 	version := -1
+	var kept []string
 	err := w.Z.Db.View(func(tx *bbolt.Tx) error {
 		st := w.Stores["things"]
+		var qerr error
+		if kept, _, qerr = st.QueryIds(tx, "true"); qerr != nil {
+			return fmt.Errorf("QueryIds(true): %v", qerr)
+		}
 		for i := 0; i < c.Things; i++ {
 			id := fmt.Sprintf("e%d", i)
 			e, found, err := st.FindById(tx, id)
@@ -278,8 +291,10 @@ func readVersion(w *kit.World, c c18Case) (int, error) {
 		}
 		return nil
 	})
-	return version, err
+	return version, kept, err
 }
+
+var errHelperLookup = errors.New("lookup failed inside a read transaction")
 
 var sharedRefErr = boltz.NewReferenceByIdError("a", "1", "b", "2", "f")
 var sharedDupErr error = &boltz.UniqueIndexDuplicateError{Field: "f", Value: "v", EntityType: "t"}
@@ -299,6 +314,15 @@ func helperRound(w *kit.World, i int) error {
 	}
 	if !boltz.IsErrNotFoundErr(boltz.NewNotFoundError("things", "id", fmt.Sprint(i))) || !boltz.IsErrNotFoundErr(sharedNotFound) || boltz.IsErrNotFoundErr(plain) {
 		return fmt.Errorf("IsErrNotFoundErr misclassified an error")
+	}
+	// a read transaction whose callback fails: the error comes back and the transaction is released like any other
+	if verr := w.Z.Db.View(func(tx *bbolt.Tx) error {
+		if _, found, _ := w.Stores["things"].FindById(tx, "no-such-id"); !found {
+			return errHelperLookup
+		}
+		return nil
+	}); !errors.Is(verr, errHelperLookup) {
+		return fmt.Errorf("Db.View returned %v for a callback that returned an error", verr)
 	}
 	st := w.Stores["things"]
 	q, err := ast.Parse(st, fmt.Sprintf(`name = "n%d" and (anyOf(roles) in ["a", "b"] or note != null) sort by name limit %d`, i, i%7))
@@ -326,6 +350,22 @@ func runC18(c c18Case) kit.Result {
 		return res
 	}
 	defer w.Close()
+	// grow the file and bbolt's memory map once (then free the pages): the workload never makes bbolt re-map the file
+	if err := w.Z.Db.Update(kit.NewCtx(), func(ctx boltz.MutateContext) error {
+		pad, err := ctx.Tx().CreateBucket([]byte("zz-pad"))
+		if err != nil {
+			return err
+		}
+		chunk := bytes.Repeat([]byte("p"), 2048)
+		for i := 0; i < 300; i++ {
+			if err := pad.Put([]byte(fmt.Sprintf("k%04d", i)), chunk); err != nil {
+				return err
+			}
+		}
+		return nil
+	}); err == nil {
+		err = w.Z.Db.Update(kit.NewCtx(), func(ctx boltz.MutateContext) error { return ctx.Tx().DeleteBucket([]byte("zz-pad")) })
+	}
 	// the prefix is assembled the way configuration code does it: a slice with spare capacity
 	metaPrefix := append(make([]string, 0, 8), "edge", "deep")
 	w.Stores["things"].AddMapSymbol("meta", ast.NodeTypeAnyType, "meta", metaPrefix...)
@@ -384,16 +424,35 @@ func runC18(c c18Case) kit.Result {
 				}
 			}()
 			last := 0
+			type keptResult struct{ ids, copies []string }
+			var keep []keptResult
 			for {
 				select {
 				case <-stop:
 					return
 				default:
 				}
-				v, err := readVersion(w, c)
+				v, ids, err := readVersionKeep(w, c)
 				if err != nil {
 					fail(fmt.Errorf("reader %d: %v", r, err))
 					return
+				}
+				// results of earlier read transactions are still held: they must not change under the caller while
+				// the writer keeps committing
+				for _, k := range keep {
+					for i := range k.ids {
+						if k.ids[i] != k.copies[i] {
+							fail(fmt.Errorf("reader %d: an id returned by an earlier query changed after its read transaction ended: was %q, is now %q", r, k.copies[i], k.ids[i]))
+							return
+						}
+					}
+				}
+				copies := make([]string, len(ids))
+				for i := range ids {
+					copies[i] = strings.Clone(ids[i])
+				}
+				if keep = append(keep, keptResult{ids, copies}); len(keep) > 6 {
+					keep = keep[1:]
 				}
 				if v < last {
 					fail(fmt.Errorf("reader %d saw version %d after version %d", r, v, last))
@@ -453,6 +512,12 @@ func runC18(c c18Case) kit.Result {
 	}
 	if v, err := readVersion(w, c); err != nil || v != 1+c.WriterTxs {
 		res.Err = fmt.Errorf("final state: version %d err %v, the writer committed up to %d", v, err, 1+c.WriterTxs)
+		return res
+	}
+	// every goroutine has finished and one more read transaction has been opened and closed on this goroutine, so
+	// bbolt's open-transaction count is exact now (while transactions end concurrently the statistic can lag)
+	if n := w.Z.Db.Stats().OpenTxN; n != 0 {
+		res.Err = fmt.Errorf("%d read transaction(s) are still open after every reader, helper and the writer have finished\nworkload: %+v", n, c)
 		return res
 	}
 	for r := range versionsSeen {
